@@ -11,12 +11,12 @@ import (
 
 // reviewedDroppedErrors: caller -> callee -> reason.
 var reviewedDroppedErrors = map[string]string{
-	"lib/model/account.NewRegistry -> (*lib/model/account.Registry).Get":                     "the five root account names are constants that pass the validator",
-	"(*cmd/commands.checkRunner).writeFile -> (*lib/journal.Builder).Add":                    "Add fails only for an unknown directive type; an *Assertion is known (F-directive-types)",
-	"(lib/reports/weights.Query).Execute$1 -> (*lib/reports/weights.Report).Add":             "Report.Add always returns nil",
-	"lib/model.FromStream$1 -> lib/common/cpr.ForEach":                                       "ForEach fails only when the context is cancelled, i.e. when a sibling stage has failed; that stage's error is what wg.Wait() returns next",
-	"(*lib/common/table.TextRenderer).Render -> (*lib/common/table.TextRenderer).renderCell": "renderCell fails only for an unknown cell type (excluded by F-cells) or when the writer fails, which the following WriteString reports",
-	"(lib/journal/check.Error).Error -> (*lib/journal/printer.Printer).PrintDirectiveLn":     "writes into a strings.Builder, which cannot fail",
+	"lib/model/account.NewRegistry -> (*lib/model/account.Registry).Get":                 "the five root account names are constants that pass the validator",
+	"(*cmd/commands.checkRunner).writeFile -> (*lib/journal.Builder).Add":                "Add fails only for an unknown directive type; an *Assertion is known (F-directive-types)",
+	"(lib/reports/weights.Query).Execute$1 -> (*lib/reports/weights.Report).Add":         "Report.Add always returns nil",
+	"lib/model.FromStream$1 -> lib/common/cpr.ForEach":                                   "ForEach fails only when the context is cancelled, i.e. when a sibling stage has failed; that stage's error is what wg.Wait() returns next",
+	"package lib/common/table -> (*lib/common/table.TextRenderer).renderCell":            "inside the text renderer: renderCell fails only for an unknown cell type (excluded by F-cells) or when the writer fails, which the WriteString that follows every cell reports",
+	"(lib/journal/check.Error).Error -> (*lib/journal/printer.Printer).PrintDirectiveLn": "writes into a strings.Builder, which cannot fail",
 }
 
 // RuleKErrors — errors are values that reach the exit status: no call to a
@@ -93,6 +93,13 @@ func RuleKErrors(c *core.Ctx) {
 			if why, ok := reviewedDroppedErrors[key]; ok {
 				c.Ob(rule, key, call.Pos(), originName(fn), core.Discharged, "reviewed: "+why)
 				return
+			}
+			if callee != nil {
+				pkgKey := fmt.Sprintf("package %s -> %s", strings.TrimPrefix(core.PkgPathOf(fn), core.Module+"/"), originName(callee))
+				if why, ok := reviewedDroppedErrors[pkgKey]; ok {
+					c.Ob(rule, key, call.Pos(), originName(fn), core.Discharged, "reviewed: "+why)
+					return
+				}
 			}
 			c.Ob(rule, key, call.Pos(), originName(fn), core.Violated, "the error result of this call is discarded: a failure in an included file, a conversion or a stage does not reach the command's exit status, and the command reports success (or prints a partial report)")
 		})
